@@ -53,6 +53,12 @@ def content(rng):
         return dt.datetime(2024, 1, 1) + dt.timedelta(days=rng.randrange(0, 300))
     if k < 0.86:
         return '=""'
+    if k < 0.92:
+        # a formula cell inside the data: what it evaluates to (a number made by a function, a logical, a text, nothing) is folded or
+        # ignored by its kind like a constant; column F holds F1-F4 logicals, F5 number, F6 blank, F7 text, F8 float
+        ref = f'F{rng.randrange(1, 9)}'
+        return rng.choice(['=ROUND({r},0)', '=ROUNDUP({r},1)', '=ROUNDDOWN({r},0)', '={r}+0', '={r}*1', '=IF({r}>0,{r},0)', '=-{r}', '={r}', '={r}={r}', '={r}&""',
+                           '=ROUND({r},0)', '=SUM({r},1)', '=MAX({r},-1)', '=IFERROR({r}/1,0)', '=ROUND(2.5,0)', '=1=1', '=LEFT("12",1)']).format(r=ref)
     return None
 
 
@@ -121,6 +127,9 @@ def make_book(rng):
                     cells[si][wbspec.a1(r, c)] = v
         for r in range(1, 5):
             cells[si][f'F{r}'] = rng.random() < 0.5
+        cells[si]['F5'] = rng.randrange(1, 40)
+        cells[si]['F7'] = 'w'
+        cells[si]['F8'] = round(rng.uniform(0.5, 9.5), 2)
     # make A,B numeric everywhere on sheet 0 for the AND/OR operands
     for r in range(1, 9):
         for c in (1, 2):
